@@ -36,7 +36,7 @@ RULE = (
     'stdnum.util._char_map (found by scanning all 0x110000 code points with unicodedata) and %d representatives '
     'of non-ASCII letter classes (accented Latin, Greek, Cyrillic, full-width, case-expanding, dotless i, long s, '
     'Kelvin/Angstrom signs, dotted I, ordinal indicators, modifier/letter-like/mathematical letters, other '
-    'scripts) plus common.NONASCII_DIGITS/NONASCII_LETTERS; thorough tier also every validate option set on the '
+    'scripts) plus common.NONASCII_DIGITS/NONASCII_LETTERS; every validate option set on the first form (quick tier: every fourth character for the non-default sets) of the '
     'first number.  Predicate: if validate returns v (a str) then every non-ASCII character of v is one of the '
     'national letters allowed for the exempt formats (de.handelsregisternummer: ÄÖÜäöüß; mx.rfc, '
     'es.referenciacatastral: Ñ); exceptions other than ValidationError are ignored here (C01).  site = '
@@ -142,7 +142,7 @@ def _worker(task):
     chars = [(c, 'digit:' + unicodedata.category(c)) for c in digits] + [(c, 'letter') for c in letters]
     forms = module_forms(mod, P)
     chars = G.part_slice(chars, part, nparts)
-    opts = G.option_sets(mod, 'validate') if tier == 'thorough' else [{}]
+    opts = G.option_sets(mod, 'validate')
     samples = []
     first = st.first
     by_gen, by_gen_acc, by_out = st.by_gen, st.by_gen_accepted, st.by_outcome
@@ -183,9 +183,10 @@ def _worker(task):
 
     for idx, f in forms:
         kws = opts if idx == 0 else opts[:1]
-        for kw in kws:
+        for ki, kw in enumerate(kws):
             kwk = G.kw_key(kw)
-            for c, cls in chars:
+            # quick tier: the non-default option sets see every fourth foreign character (all of them in thorough)
+            for c, cls in (chars if ki == 0 or tier == 'thorough' else chars[::4]):
                 gs, gi = 'subst-' + cls, 'insert-' + cls
                 for i in range(len(f)):
                     run(gs, f[:i] + c + f[i + 1:], kw, kwk)
@@ -214,7 +215,9 @@ def search(seed, tier):
         mod = common.module(n)
         sc = G.budget_scale(mod)
         forms = module_forms(mod, G.scaled_params(PARAMS[tier], sc, tier))
-        nkw = len(G.option_sets(mod, 'validate')) if tier == 'thorough' else 1
+        nkw = len(G.option_sets(mod, 'validate'))
+        if tier != 'thorough':
+            nkw = 1 + (nkw - 1) / 4.0
         est = (sum(len(f) for _i, f in forms) + (nkw - 1) * (len(forms[0][1]) if forms else 0)) / sc
         parts = max(1, min(16, int(round(est / (40.0 if tier == 'thorough' else 25.0)))))
         for p in range(parts):
